@@ -1,4 +1,63 @@
-(* placeholder until the proofs land *)
-From Verif Require Import C13.Model.
-Theorem placeholder : True. Proof. exact I. Qed.
-Print Assumptions placeholder.
+(* C13/Props.v -- property theorems only; each is closed by [exact] of a lemma
+   from C13/Proofs.v and followed by Print Assumptions. The model [fd] is the
+   interpreter (C13/Model.v) of the tables REGENERATED from
+   odl/discr/diff_ops.py:finite_diff into Gen/FiniteDiff.v. *)
+From Coq Require Import Reals List Bool.
+From Verif Require Import Base.Num Base.Vec Base.VecR C13.Syntax Gen.FiniteDiff C13.Model C13.Proofs.
+Import ListNotations.
+Local Open Scope R_scope.
+
+(* T1: every (method, base padding) pair except order2 x {forward, backward}:
+   the computed array IS the textbook stencil on the array extended by the
+   named rule, divided by dx -- all lengths >= the minimal admissible one,
+   all entries, all pad constants. *)
+Theorem fd_textbook : forall (m : meth) (p : pmode) (c dx : R) (f : list R),
+  textbook_pair m p = true -> (min_size p <= length f)%nat ->
+  fd m p c dx f = fd_ref m p c dx f.
+Proof. exact fd_textbook_list. Qed.
+Print Assumptions fd_textbook.
+
+(* T1 (partial, for the two remaining pairs): what 'order2' computes with any
+   method -- central stencil on the quadratic extension at the two edge rows,
+   the method's stencil elsewhere. *)
+Theorem fd_order2_partial : forall (m : meth) (c dx : R) (f : list R) (i : nat),
+  (3 <= length f)%nat -> (i < length f)%nat ->
+  nth i (fd m POrder2 c dx f) 0 =
+  (if (i =? 0)%nat || (i =? length f - 1)%nat
+   then stencil Central (ext POrder2 c f) i else stencil m (ext POrder2 c f) i) / dx.
+Proof. exact fd_order2_edges_nth. Qed.
+Print Assumptions fd_order2_partial.
+
+(* The full statement is FALSE of the faithful model for those two pairs
+   (recorded finding C13/order2-onesided). *)
+Theorem fd_textbook_order2_forward_refuted :
+  exists f : list R, fd Forward POrder2 0 1 f <> fd_ref Forward POrder2 0 1 f.
+Proof. exact fd_order2_forward_refuted. Qed.
+Theorem fd_textbook_order2_backward_refuted :
+  exists f : list R, fd Backward POrder2 0 1 f <> fd_ref Backward POrder2 0 1 f.
+Proof. exact fd_order2_backward_refuted. Qed.
+
+(* T1: for all 30 (method, padding) pairs and every length on which both
+   operators are defined (short axes included), the operator named by the
+   _ADJ_METHOD/_ADJ_PADDING tables is exactly minus the transpose:
+   <D f, g> = - <f, D' g>  for all f, g. *)
+Theorem fd_adjoint : forall (m : meth) (p : pmode) (dx : R) (f g : list R),
+  dx <> 0 -> length f = length g -> (2 <= length f)%nat ->
+  bnd_in_range (length f) (boundary_tab p m) = true ->
+  bnd_in_range (length f) (boundary_tab (adj_padding p) (adj_method m)) = true ->
+  dot (fd m p 0 dx f) g = - dot f (fd (adj_method m) (adj_padding p) 0 dx g).
+Proof. exact fd_adjoint_all. Qed.
+Print Assumptions fd_adjoint.
+
+(* non-vacuity: the range side conditions hold from length 3 on for every pair
+   (and from length 2 for all pairs not involving order2 / order2_adjoint) *)
+Example side_conditions_hold_from_3 :
+  forallb (fun n => forallb (fun m => forallb (fun p =>
+     bnd_in_range n (boundary_tab p m) && bnd_in_range n (boundary_tab (adj_padding p) (adj_method m)))
+     all_pmodes) all_meths) [3; 4; 5; 6; 7; 20]%nat = true.
+Proof. vm_compute. reflexivity. Qed.
+Example adj_tables_involutive :
+  forallb (fun m => match adj_method (adj_method m), m with
+     Central, Central | Forward, Forward | Backward, Backward => true | _, _ => false end) all_meths = true
+  /\ forallb (fun p => is_base p || is_base (adj_padding p)) all_pmodes = true.
+Proof. split; vm_compute; reflexivity. Qed.
